@@ -1,6 +1,7 @@
 package core
 
 import (
+	"github.com/jsightapi/jsight-api-core/catalog"
 	schema "github.com/jsightapi/jsight-schema-core"
 	"github.com/jsightapi/jsight-schema-core/bytes"
 	"github.com/jsightapi/jsight-schema-core/notations/jschema"
@@ -35,7 +36,7 @@ func newPathVariablesSchema(
 	}
 
 	for k, v := range userTypes {
-		if err = s.AddType(k, v); err != nil { //nolint:gocritic
+		if err = catalog.AddUserType(s, k, v); err != nil { //nolint:gocritic
 			return nil, err
 		}
 	}
